@@ -486,6 +486,18 @@ def panel_configs_structured(verif_seed):
             out.append({"via": "dispatch", "what": "diag", "name": name, "recipe": rec, "k": 0, "rand": rand, "max_iters": 1})
         out.append({"via": "dispatch", "what": "trace", "name": name, "recipe": rec, "k": 0, "rand": g.choice(["normal", "rademacher"]),
                     "max_iters": 1})
+    # several iterations per call (a tolerance that is never met, normal probes: relative stderr < 0.002 after <= 3 small blocks
+    # does not happen, so every call runs exactly max_iters blocks and no optional stopping is involved): a rule that gives its
+    # parts keys from the SAME chain the estimator itself walks makes block j+1 of one part the block j of the next -- invisible
+    # with one block per call
+    for name, rec in structured(False):
+        for mi in (2, 3):
+            out.append({"via": "dispatch", "what": "diag" if mi == 3 else "trace", "name": name + "/iters=%d" % mi, "recipe": rec, "k": 0,
+                        "rand": "normal", "max_iters": mi})
+        if name in ("kron-equal", "kron-three", "kron-same-factor", "sum-of-kron-and-diag", "kron-unequal"):  # more blocks per call (a larger shared fraction) and more keys (statistical power)
+            for what in ("diag", "trace"):
+                out.append({"via": "dispatch", "what": what, "name": name + "/iters=6", "recipe": rec, "k": 0, "rand": "normal",
+                            "max_iters": 6, "K": 4096})
     # off-diagonals through the rules that accept them (sums, scalar multiples incl. complex scalars, negation, products,
     # transposes and adjoints -- where the sign of the offset flips): a rule that refuses an offset is skipped
     def Gc(n):
@@ -1018,7 +1030,7 @@ def key_programs_c17():
 # ------------------------------------------------------------------------------------------
 # I-STEPS programs (C17): Hutchinson on a user operator whose products are counted, with non-finite products
 # injected at chosen iterations, for every small max_iters: at most max(1, max_iters) products, always.
-def steps_programs_c17():
+def steps_programs_c17(tier="quick"):
     out = []
     A = {"k": "ann", "name": "PSD", "of": {"k": "probe", "inner": {"k": "generic", "n": 4, "dtype": "f8", "seed": 31, "sym": "psd"},
                                             "pid": 0}}
@@ -1054,4 +1066,17 @@ def steps_programs_c17():
                         out.append({"name": "%s/n=%d/max_iters=%d/%s/tol=%g/k=%s" % (fn, n, mi, rand, tol, extra.get("k", "-")),
                                     "program": {"property": "C17", "run_seed": 0, "rng0": 3, "config": {"steps": [fn, mi, n]},
                                                 "mode": "explicit", "steps": steps}})
+    # long runs: the cap must hold for EVERY value of max_iters, also beyond any internal "check only every so often" stride --
+    # caps just above powers of two and round decimal numbers, with a tolerance that is never met
+    for mi in (7, 10, 17, 33, 65, 100, 129, 150, 257, 1000, 1025) + ((2049, 4097) if tier == "thorough" else ()):
+        for rand in ("normal", "rademacher"):
+            for fn, extra in (("hutch", {"k": 0}), ("hutch", {"k": 1}), ("diag_hutch", {"k": 0}), ("trace_hutch", {})):
+                c = {"op": "call", "fn": fn, "args": dict({"A": {"slot": "A0"}, "tol": 0.0011, "max_iters": mi, "rand": rand, "key": 3},
+                                                          **extra)}
+                steps = [{"op": "make", "slot": "A0", "recipe": A}, c]
+                for j, s in enumerate(steps):
+                    s["id"] = j
+                out.append({"name": "%s/long/max_iters=%d/%s/k=%s" % (fn, mi, rand, extra.get("k", "-")),
+                            "program": {"property": "C17", "run_seed": 0, "rng0": 3, "config": {"steps": [fn, mi, "long"]},
+                                        "mode": "explicit", "steps": steps}})
     return out
